@@ -291,6 +291,25 @@ pub fn run(r: &Report) {
     }
     r.set_extra("standard_addresses", json!(jobs.len()));
     jobs.par_iter().for_each(|(n, p, b)| check_valid(r, *n, p, b));
+    // histories on ONE thread: the same payload under a blinding key and then under its negation (same x coordinate, other
+    // parity), under another network, and unblinded, back to back in both orders — a parser that remembers anything about
+    // the address it handled last must still give each string its own address
+    {
+        let k = zkp::PublicKey::from_slice(&gen::fixtures().pks[0]).unwrap();
+        let seq_blinders = [Some(k), Some(k.negate(gen::secp())), None, Some(k)];
+        let payloads = [RPayload::Pkh(hash20(1)), RPayload::Sh(hash20(2)), RPayload::Wit(0, gen::blob(20, 1)), RPayload::Wit(0, gen::blob(32, 2)), RPayload::Wit(1, gen::blob(32, 3)), RPayload::Wit(16, gen::blob(40, 4))];
+        let mut n_seq = 0u64;
+        for p in &payloads {
+            for net in 0..3usize {
+                for b in seq_blinders.iter().chain(seq_blinders.iter().rev()) {
+                    check_valid(r, net, p, b);
+                    check_valid(r, (net + 1) % 3, p, b);
+                    n_seq += 2;
+                }
+            }
+        }
+        r.add_extra_count("sequential_history_addresses", n_seq);
+    }
 
     // constructor functions
     {
